@@ -197,6 +197,20 @@ CLAIMED = {
 }
 
 # clauses added while building (DESIGN.md section 11.2), appended to the level text
+ADDENDA2 = {'C01': 'Later additions: per-instance containers on the message classes; the signature handed to the primitive is the received octet string itself; the header tables as the crit defence; PSS / PKCS1 primitive call table and consuming-side key selection (no kid written into a received header) as clauses. Generic routing rule: between functions that share a parameter name the property speaks about, the value is handed on as given (frozen exception table) and the parameter is not re-bound except by to_bytes / to_str of itself.',
+    'C02': 'Later additions: 1PU / ES shared-secret terms, key-wrap primitive shapes, whole-key dir, and zip honoured from the protected position only, as clauses. Generic routing rule: between functions that share a parameter name the property speaks about, the value is handed on as given (frozen exception table) and the parameter is not re-bound except by to_bytes / to_str of itself.',
+    'C03': 'Later additions: algorithm -> key-type table, per-instance registry, set-member key picking and JSON payload extraction (empty payload included) as clauses. Generic routing rule: between functions that share a parameter name the property speaks about, the value is handed on as given (frozen exception table) and the parameter is not re-bound except by to_bytes / to_str of itself.',
+    'C04': 'Later additions: the handler around per-recipient CEK recovery catches the base error class; sender_key is forwarded and resolved from `sender_key`; the algorithm whose trait (tag_aware / direct_mode) is tested is the one used in the selected branch (mixed recipients); DEF gate, CBC padding layout and 1PU Z as clauses. Generic routing rule: between functions that share a parameter name the property speaks about, the value is handed on as given (frozen exception table) and the parameter is not re-bound except by to_bytes / to_str of itself.',
+    'C05': "Later additions: no algorithm gate inside a handler that completes normally; a registry is built only from the call's own `algorithms` under `registry is None` (all construct_registry sites agree); the allow-list a wrapper received reaches the registry it builds and is never re-bound from a header. Generic routing rule: between functions that share a parameter name the property speaks about, the value is handed on as given (frozen exception table) and the parameter is not re-bound except by to_bytes / to_str of itself.", 'C06': 'Later additions: `_normalize_key` returns the key or OctKey.import_key(key) only; dir uses the whole key. Generic routing rule: between functions that share a parameter name the property speaks about, the value is handed on as given (frozen exception table) and the parameter is not re-bound except by to_bytes / to_str of itself.',
+    'C07': "Later additions: the 'no b64' conclusion of the RFC 7797 extractors is a membership test of the decoded header (not of its spelling); verify() refuses only in the InvalidSignature handler or on an exact (bits + 7) // 8 length; oct import returns the given octets; no memoised header decoding.", 'C08': "Later additions: exchange_derive_key returns the primitive's raw output; algorithm models keep no per-call state; header codec reads UTF-8 JSON; JOSE header union. Generic routing rule: between functions that share a parameter name the property speaks about, the value is handed on as given (frozen exception table) and the parameter is not re-bound except by to_bytes / to_str of itself.", 'C09': 'Later additions: key-set routes incl. the algorithm -> key-type table, decrypt idioms, header codec, caller registry judged alike on encode and decode, bounded-inflater gate, as clauses. Generic routing rule: between functions that share a parameter name the property speaks about, the value is handed on as given (frozen exception table) and the parameter is not re-bound except by to_bytes / to_str of itself.',
+    'C11': 'Later additions: each JWK integer reaches its own slot of the pyca number constructors through base64_to_int(obj[member]); all four curve tables (OKP public / private, EC both directions) equal the RFC tables and are what import indexes; oct import keeps the octets. Generic routing rule: between functions that share a parameter name the property speaks about, the value is handed on as given (frozen exception table) and the parameter is not re-bound except by to_bytes / to_str of itself.',
+    'C12': 'Later additions: `original_value` is never read outside the constructor; the key state fields (_raw_value, original_value, _dict_value) are assigned in BaseKey.__init__ only; the JWK view is never built inside an object shared with other keys. Generic routing rule: between functions that share a parameter name the property speaks about, the value is handed on as given (frozen exception table) and the parameter is not re-bound except by to_bytes / to_str of itself.',
+    'C13': "Later additions: with auto_kid no generate_key path skips ensure_kid; the only store of a kid into a key's JWK view in the whole package is ensure_kid; a JWK given with parameters keeps its own members. Generic routing rule: between functions that share a parameter name the property speaks about, the value is handed on as given (frozen exception table) and the parameter is not re-bound except by to_bytes / to_str of itself.", 'C14': 'Later additions: KeySet.__init__ gives every element of the list it stores a kid under no condition; KeySet.algorithm_keys is never rebound; the kid is looked up in the union of all header positions. Generic routing rule: between functions that share a parameter name the property speaks about, the value is handed on as given (frozen exception table) and the parameter is not re-bound except by to_bytes / to_str of itself.',
+    'C15': "Later additions: admitted header names derive from the registry only, never from the header under test; the merged header view must be loss-free - rule R15.8 reports each (shadowed, shadowing) pair of positions; the four pairs of today's tree are the known finding F24 (a registered parameter duplicated across positions is type-checked in the surviving copy only). Generic routing rule: between functions that share a parameter name the property speaks about, the value is handed on as given (frozen exception table) and the parameter is not re-bound except by to_bytes / to_str of itself.", 'C16': 'Later additions: E9 - no membership test / iteration over a JSON member mypy still types Any in consume-reachable code; algorithm gates test membership in the table they index; a non-empty CEK set before pop.',
+    'C17': "Later additions: every return of compress() is the compressor's output (empty input included); zip honoured under a presence condition.", 'C18': 'Later additions: every iteration count the library records by itself folds to >= 1000 (reaching definitions); crv / key_size / private reach the generators as requested (routing and re-binding discipline); a nonce is never routed through a container that outlives the call; per-key JWK views.',
+    'C19': 'Later additions: JWK import hands base64_to_int(obj[member]) to the matching slot of the pyca number constructors (no look-up tables, no other decoder); ensure_ascii output; RSA minimal big-endian export. Generic routing rule: between functions that share a parameter name the property speaks about, the value is handed on as given (frozen exception table) and the parameter is not re-bound except by to_bytes / to_str of itself.',
+    'C20': 'Later additions: memoised functions are exactly the three whitelisted public_key caches; shallow copies share their contents with the original; class-level containers and aliased instance attributes are shared roots.'}
+
 ADDENDA = {
     "C01": "Also decided: the payload inside the signing input is the payload that is returned (or the segment the extractor pairs with it); the MAC a "
            "signature is compared with depends on (message, key, hash) only, never on state kept on the shared algorithm object.",
@@ -246,7 +260,7 @@ def main() -> None:
                 "evidence_file": f"/verif/evidence/{pid}.json",
                 "replay_cmd_template": f"{PY} -m jv replay {{path}}",
                 "engine": "jv",
-                "level_claimed": {"category": "other", "text": text + (" " + ADDENDA[pid] if pid in ADDENDA else ""), "design_ref": f"DESIGN.md section {ref} and 11.2"},
+                "level_claimed": {"category": "other", "text": text + (" " + ADDENDA[pid] if pid in ADDENDA else "") + (" " + ADDENDA2[pid] if pid in ADDENDA2 else ""), "design_ref": f"DESIGN.md section {ref} and 11.2"},
                 "level_note": note,
                 "technique": tech,
             })
